@@ -3,6 +3,7 @@ import ThriftVerif.Props.C11
 #print axioms Props.C11.codec_roundtrip
 #print axioms Props.C11.request_roundtrip
 #print axioms Props.C11.response_roundtrip
+#print axioms Props.C11.marshal_total
 #print axioms Props.C11.write_ends_with_stop
 #print axioms Props.C11.compress_decompress
 #print axioms Props.C11.trailer_detected
